@@ -89,6 +89,31 @@ _poll_entry_empty_(struct qb_poll_entry *pe)
 	pe->ufd.fd = -1;
 }
 
+/*
+ * The callback may have closed its descriptor and registered the same
+ * number again (a new entry): the kernel's registration then belongs to
+ * that entry.
+ */
+static int32_t
+_poll_fd_has_newer_entry_(struct qb_poll_source *s, struct qb_poll_entry *pe)
+{
+	struct qb_poll_entry *other;
+	int32_t i;
+
+	for (i = 0; i < s->poll_entry_count; i++) {
+		if (qb_array_index(s->poll_entries, i, (void **)&other) != 0 ||
+		    other == pe) {
+			continue;
+		}
+		if (other->ufd.fd == pe->ufd.fd &&
+		    (other->state == QB_POLL_ENTRY_ACTIVE ||
+		     other->state == QB_POLL_ENTRY_JOBLIST)) {
+			return QB_TRUE;
+		}
+	}
+	return QB_FALSE;
+}
+
 static void
 _poll_dispatch_and_take_back_(struct qb_loop_item *item,
 			      enum qb_loop_priority p)
@@ -120,7 +145,10 @@ _poll_dispatch_and_take_back_(struct qb_loop_item *item,
 			struct qb_poll_source *s =
 				(struct qb_poll_source *)pe->item.source;
 
-			(void)s->driver.del(s, pe, pe->ufd.fd, pe->install_pos);
+			if (!_poll_fd_has_newer_entry_(s, pe)) {
+				(void)s->driver.del(s, pe, pe->ufd.fd,
+						    pe->install_pos);
+			}
 		}
 		_poll_entry_mark_deleted_(pe);
 	} else if (pe->state != QB_POLL_ENTRY_DELETED) {
